@@ -3,7 +3,7 @@
    addresses of delivered slices are runtime facts, sampled by the harness (counting global allocator,
    pointer ranges) and compared with what the model predicts. *)
 From TS Require Import Base.Res Model.Timestamp Model.Packet Model.Pes Model.PesFilter Model.Crc Model.Psi Model.Demux
-  Proofs.PesFilterProofs Proofs.SectionProofs Proofs.TableProofs Proofs.DeepTotality Proofs.TotalityProofs Proofs.ResourceProofs.
+  Model.DemuxObs Proofs.PesFilterProofs Proofs.SectionProofs Proofs.TableProofs Proofs.DeepTotality Proofs.TotalityProofs Proofs.ResourceProofs Proofs.Witnesses.
 Open Scope N_scope.
 
 (* every payload the packet layer hands out is a suffix range of the 188-byte packet itself *)
@@ -45,3 +45,12 @@ Theorem C19_buffer_bounded : forall fz (IS CX EV : Type) inner (c : chain IS) (c
   buf_bnd IS c -> spc_consume (table_cfg fz) IS CX EV inner c cx pk = Ok r -> buf_bnd IS (fst (fst r)).
 Proof. exact c19_buffer_bounded. Qed.
 Print Assumptions C19_buffer_bounded.
+
+(* KNOWN FINDING F10 (refutation witness): two programs whose maps travel on ONE program-map PID with different
+   version_numbers.  The de-duplication layer remembers one version per PID, so each map differs from "the last one" and is
+   applied again every time it is repeated: in the steady part of the witness (both maps once more, nothing new) the model
+   makes 2 handler requests (last number; the implementation makes the same 2 requests and 2 heap allocations for the
+   PMT processor's bit sets).  With equal version_numbers the second map is taken for a repetition and nothing happens. *)
+Theorem C19_F10_refuted : run_alloc wit_F10_warm wit_F10_steady = Some (0 :: 0 :: 0 :: 2 :: nil).
+Proof. vm_compute. reflexivity. Qed.
+Print Assumptions C19_F10_refuted.
